@@ -1213,19 +1213,33 @@ error:
  *   @format:  printf-like format string forming the property expression
  *   @ap       variable argument pointer
  */
+static vnaproperty_t **descend(parser_t *parser,
+	vnaproperty_t **rootptr, bool set);		/* forward */
+
 static vnaproperty_t **parse_and_descend(parser_t *parser,
 	vnaproperty_t **rootptr, bool set, const char *format, va_list ap)
 {
-    vnaproperty_t **anchor = rootptr;
-    vnaproperty_t *node = *anchor;
-    vnaproperty_t *collection = NULL;
-
     /*
      * Parse the expression.
      */
     if (parse(parser, format, ap) == -1) {
 	return NULL;
     }
+    return descend(parser, rootptr, set);
+}
+
+/*
+ * descend: descend down the tree following an already parsed expression
+ *   @parser:  parser state filled in by parse
+ *   @rootptr: address of property data root
+ *   @set:     force the tree to conform to the indicated expression
+ */
+static vnaproperty_t **descend(parser_t *parser,
+	vnaproperty_t **rootptr, bool set)
+{
+    vnaproperty_t **anchor = rootptr;
+    vnaproperty_t *node = *anchor;
+    vnaproperty_t *collection = NULL;
 
     /*
      * Following the expression list, walk down the tree.
@@ -1596,13 +1610,14 @@ int vnaproperty_vset(vnaproperty_t **rootptr, const char *format, va_list ap)
     vnaproperty_t *value = NULL;
     int rv = -1;
 
-    if ((anchor = parse_and_descend(&parser, rootptr, /*set*/true,
-		    format, ap)) == NULL) {
+    if (parse(&parser, format, ap) == -1) {
 	return -1;
     }
 
     /*
-     * Make sure we're not trying to assign to a map or list.
+     * Make sure we're not trying to assign to a map or list, and that
+     * the expression is followed by an assignment.  Check before making
+     * the tree conform so that a refused call leaves the tree alone.
      */
     switch (parser.prs_tail->ex_type) {
     case E_MAP_ELEMENT:
@@ -1617,6 +1632,13 @@ int vnaproperty_vset(vnaproperty_t **rootptr, const char *format, va_list ap)
     default:
 	errno = EINVAL;
 	goto out;
+    }
+    if (scanner->scn_token != T_ASSIGN && scanner->scn_token != T_HASH) {
+	errno = EINVAL;
+	goto out;
+    }
+    if ((anchor = descend(&parser, rootptr, /*set*/true)) == NULL) {
+	return -1;
     }
 
     /*
